@@ -408,6 +408,20 @@ func checkRedirectCallback(c *Ctx, fn *ssa.Function, mrth *ssa.Function, isTrigg
 		c.Fail("R5", name+" arms", fn.Pos(), "the redirect callback does not distinguish MOVED and ASK by comparing the first word with the protocol constants")
 		return
 	}
+	// once a redirection is recognised the refresh is triggered whatever happens to the resend (a target that refuses
+	// the connection is exactly the situation in which the table is stale)
+	for _, arm := range []struct {
+		w string
+		b *ssa.BasicBlock
+	}{{"MOVED", movedB}, {"ASK", askB}} {
+		path := findPath(ipos{arm.b, -1}, pathQuery{target: isReturn, avoid: mm})
+		site := fmt.Sprintf("%s %s arm reaches trigger", name, arm.w)
+		if path != nil {
+			c.Fail("R3", site, arm.b.Instrs[0].Pos(), "a recognised "+arm.w+" redirection can end without triggering a slots refresh ("+p.pathString(path)+"): when the new owner refuses or times out the connect the table stays on the old layout until the periodic refresh")
+		} else {
+			c.OK("R3", site, arm.b.Instrs[0].Pos(), "every path from the recognised redirection reaches triggerSlotsRefresh")
+		}
+	}
 	inArm := func(b, arm *ssa.BasicBlock) bool { return b == arm || arm.Dominates(b) }
 	var movedSends, askSends []*ssa.Call
 	for _, s := range sends {
